@@ -88,3 +88,27 @@ def wsum_remove(ctx):
             ("below.step", ax + [0 <= b, b < p_, f2(b) == f1(b)], f2(b + 1) == f1(b + 1), "k -> k+1 below p"),
             ("above.base", ax + [f2(p_) == f1(p_)], f2(p_) == f1(p_ + 1), "k = p: f1(p+1) = f1(p) + 0"),
             ("above.step", ax + [b >= p_, f2(b) == f1(b + 1)], f2(b + 1) == f1(b + 2), "k -> k+1 above p")]
+
+
+@lemma("lastidx_range", ["C07"])
+def lastidx_range(ctx):
+    """f(0) = -1, f(k+1) = (k if hit(k) else f(k))  ==>  -1 <= f(k) < k  and  (f(k) >= 0 ==> hit(f(k)))      (induction on k)"""
+    f = z3.Function("f", I, I)
+    hit = z3.Function("hit", I, z3.BoolSort())
+    k, b = z3.Ints("k b")
+    ax = [f(0) == -1, z3.ForAll([k], z3.Implies(k >= 0, f(k + 1) == z3.If(hit(k), k, f(k))), patterns=[f(k + 1)])]
+    P = lambda x: z3.And(-1 <= f(x), f(x) < x, z3.Implies(f(x) >= 0, hit(f(x))))
+    return [("base", ax, P(z3.IntVal(0)), "k = 0"), ("step", ax + [b >= 0, P(b)], P(b + 1), "k -> k+1")]
+
+
+@lemma("lastidx_ext", ["C07"])
+def lastidx_ext(ctx):
+    """two last-index functions whose hit predicates agree on [0, n) agree on [0, n]   (induction on k)"""
+    f1, f2 = z3.Function("f1", I, I), z3.Function("f2", I, I)
+    h1, h2 = z3.Function("h1", I, z3.BoolSort()), z3.Function("h2", I, z3.BoolSort())
+    k, b, n, j = z3.Ints("k b n j")
+    ax = [f1(0) == -1, f2(0) == -1,
+          z3.ForAll([k], z3.Implies(k >= 0, f1(k + 1) == z3.If(h1(k), k, f1(k))), patterns=[f1(k + 1)]),
+          z3.ForAll([k], z3.Implies(k >= 0, f2(k + 1) == z3.If(h2(k), k, f2(k))), patterns=[f2(k + 1)]),
+          z3.ForAll([j], z3.Implies(z3.And(0 <= j, j < n), h1(j) == h2(j)), patterns=[h1(j)])]
+    return [("base", ax, f2(0) == f1(0), "k = 0"), ("step", ax + [0 <= b, b < n, f2(b) == f1(b)], f2(b + 1) == f1(b + 1), "k -> k+1")]
